@@ -19,7 +19,7 @@ CHECKS = {
   "technique": TECH + "; inductive step from a symbolic invariant state",
  },
  "C17": {
-  "text": "Bounded symbolic model checking in four groups: (1) constructor validation for every 64-bit block size rejected by GetBlocksInSegment (must return ErrInvalid, no panic) and every accepted size up to 1 (quick) / 3 (thorough) pages with symbolic buffer size; (2) index arithmetic of Block/getBlockIdxInHdr for constant block sizes, 1..65536 segments and all index pairs: ranges disjoint, inside their segment, outside headers, header bits injective (z3 with cvc5 --solve-bv-as-int=sum as fallback for the division-heavy obligations); (3) inductive step on the real in-memory buffer with all bytes symbolic and any free-hint satisfying the invariant: ArrangeBlock/FreeBlock/Block change exactly one header bit or nothing, ErrExhausted iff nothing free, Available tracks, lock-set check on header bytes/freeIdx; (4) reopening arbitrary bytes reproduces the allocated set.",
+  "text": "Bounded symbolic model checking in four groups: (1) constructor validation for every 64-bit block size rejected by GetBlocksInSegment (must return ErrInvalid, no panic) and every accepted size up to 1 (quick) / 3 (thorough) pages with symbolic buffer size; (2) index arithmetic of Block/getBlockIdxInHdr for the power-of-two block sizes 1..4096, 1..65536 segments and all index pairs: ranges disjoint, inside their segment, outside headers, header bits injective (z3 with cvc5 --solve-bv-as-int=sum as fallback for the division-heavy obligations); (3) inductive step on the real in-memory buffer with all bytes symbolic and any free-hint satisfying the invariant: ArrangeBlock/FreeBlock/Block change exactly one header bit or nothing, ErrExhausted iff nothing free, Available tracks, lock-set check on header bytes/freeIdx; (4) reopening arbitrary bytes reproduces the allocated set.",
   "note": "Trusted: gosx translation (self-checked natively), z3/cvc5; os.Getpagesize()=4096; Buffer contract stub in groups 1-2; sync.Mutex/atomic intrinsics. Bitmap reasoning only for block sizes <= 4 (quick) / 8 (thorough) and <= 2 / 3 segments; the memory-mapped backend and real concurrency beyond the lock-set argument are outside the claim.",
   "technique": TECH + "; inductive step from a symbolic invariant state; lock-set check",
  },
